@@ -68,11 +68,12 @@
 (*    other request in between): a retry is what the back-off exists for,  *)
 (*    and a request that opted out is never re-sent to the same host at    *)
 (*    once (its host is dropped from the round).                           *)
-(*  - For the order rule a host counts as backing off when its window was  *)
-(*    still open at the earliest instant the client can have ordered the   *)
-(*    hosts (t0 of the round); "a backing-off host was tried first" is     *)
-(*    only claimed for Retry-After windows that extend at least `slack`    *)
-(*    beyond the start of the call (layer 1 only).                         *)
+(*  - For the order rule only a host without a back-off class failure      *)
+(*    since its last complete reply counts as certainly not backing off    *)
+(*    (the statement says "at least": a client may keep away from a host   *)
+(*    that failed for as long as it likes); "a backing-off host was tried  *)
+(*    first" is only claimed for Retry-After windows that extend at least  *)
+(*    `slack` beyond the start of the call (layer 1 only).                 *)
 (*  - A violation of the priority order is reported as priority-ascending *)
 (*    when the offer is exactly what sorting the priorities the wrong way  *)
 (*    round gives (known finding S1), else as priority-other.              *)
@@ -90,13 +91,13 @@ Transient == {"tf", "ra", "reset"}                 \* a cut (truncated body) is 
 DropClass == {"nf", "rng", "auth", "other", "badok"}
 Success   == {"ok", "trunc"}
 
-HostZero == [base |-> 0, due |-> 0, armed |-> 0, fsig |-> "", fie |-> 0, until |-> 0, untilra |-> 0]
+HostZero == [base |-> 0, due |-> 0, armed |-> 0, fsig |-> "", fie |-> 0, clean |-> TRUE, untilra |-> 0]
 NewRound(t, sig) == [t0 |-> t, tried |-> {}, dropped |-> {}, failed |-> {}, sig |-> sig]
 
 MZero == [R |-> 0, D |-> 0, up |-> "", hosts |-> {}, prio |-> <<>>, slack |-> 0, waive |-> {},
           layer |-> 0, lq |-> <<>>, rd |-> NewRound(0, ""), hs |-> <<>>,
           lastk |-> "", lasttr |-> 0, lastsig |-> "", lasth |-> "",
-          runn |-> 0, runfail |-> 0, maxrunfail |-> 0,
+          runn |-> 0, runfail |-> 0, maxrunfail |-> 0, rundrop |-> {},
           nfail |-> 0, nbo |-> 0, injt |-> 0, injo |-> 0, bad |-> ""]
 
 \* ---------------------------------------------------------------- reset
@@ -126,7 +127,7 @@ PSeek(m, e) ==
 PRead(m, e) == [m EXCEPT !.rd = NewRound(e.tc, ""), !.lastk = "", !.lasttr = e.tc]
 
 POp(m, e) == [m EXCEPT !.rd = NewRound(e.tc, ""), !.lastk = "", !.lasttr = e.tc, !.lastsig = "",
-                       !.runn = 0, !.runfail = 0]
+                       !.runn = 0, !.runfail = 0, !.rundrop = {}]
 
 \* -------------------------------------------------------------- attempts
 ShouldPrio(m, g, h) == m.prio[g] > m.prio[h]
@@ -144,7 +145,9 @@ PAtt2(m, e) ==
       rd    == IF newrd THEN NewRound(m.lasttr, e.sig) ELSE m.rd
       \* attempts of this logical request so far (layer 2: a run of equal requests not
       \* interrupted by a complete reply)
-      newrun == ~l1 /\ (e.sig # m.lastsig \/ m.lastk = "ok")
+      \* ... nor by a refusal of this very host (after 404 / 416 / another final status a logical
+      \* request can only go on at a different host; the same request to the same host is a new one)
+      newrun == ~l1 /\ (e.sig # m.lastsig \/ m.lastk = "ok" \/ h \in m.rundrop)
       n     == IF l1 THEN (IF known THEN m.lq[e.id].n ELSE 0) + 1
                ELSE (IF newrun THEN 0 ELSE m.runn) + 1
       bound == m.R + 1 + (IF known THEN m.lq[e.id].seeks ELSE 0)
@@ -153,7 +156,7 @@ PAtt2(m, e) ==
       \* back-off demand: does it apply to this request?
       applies == hs.armed > 0 /\ (hs.fie = 0 \/ (hs.fie = 2 /\ hs.fsig = e.sig /\ m.lastsig = e.sig /\ m.lasth = h))
       others == (m.hosts \ rd.tried) \ {h}
-      idle(g) == rd.t0 >= m.hs[g].until          \* g was certainly not backing off when the round began
+      idle(g) == m.hs[g].clean                   \* g gives the client no reason to back off from it
       \* is this offer exactly what sorting the priorities the wrong way round would produce?
       asc   == /\ \A g \in rd.tried : KeyLe(m, g, h)
                /\ \A g \in others : idle(g) => KeyLe(m, h, g)
@@ -181,7 +184,8 @@ PAtt2(m, e) ==
       hs2   == [hs EXCEPT !.base = base2,
                           !.armed = IF ~arms THEN 0 ELSE IF e.k = "ra" /\ e.ra > 0 THEN 2 ELSE 1,
                           !.due = due2, !.fsig = e.sig, !.fie = ie,
-                          !.until = IF arms THEN Max2(@, IF e.k = "ra" THEN e.tr + e.ra ELSE e.tr + m.D) ELSE @,
+                          !.clean = IF e.k = "ok" THEN TRUE
+                                    ELSE IF e.k \in Transient \cup {"trunc", "other"} THEN FALSE ELSE @,
                           !.untilra = IF arms /\ e.k = "ra" /\ l1 THEN Max2(@, e.tr + e.ra) ELSE @]
       failed == e.k \notin Success
       \* layer 2: replies of this run that cost the logical request an attempt without completing it
@@ -197,6 +201,9 @@ PAtt2(m, e) ==
         !.runn = IF l1 THEN 0 ELSE n,
         !.runfail = IF l1 THEN 0 ELSE rfail,
         !.maxrunfail = IF l1 THEN 0 ELSE Max2(m.maxrunfail, rfail),
+        \* hosts that refused in the current round of offers (a resumed read offers to all again)
+        !.rundrop = IF l1 \/ e.k \in Success THEN {}
+                    ELSE (IF newrun THEN {} ELSE m.rundrop) \cup (IF e.k \in {"nf", "rng", "other"} THEN {h} ELSE {}),
         !.nfail = IF failed THEN @ + 1 ELSE @,
         \* replies that may count against a host in the client's back-off book-keeping
         !.nbo = IF e.k \in Transient \cup {"trunc", "other"} THEN @ + 1 ELSE @,
@@ -212,8 +219,7 @@ PCut(m, e) ==
       ie   == IF e.id \in DOMAIN m.lq THEN m.lq[e.id].ie ELSE 2
       base == IF hs.base = 0 THEN e.t ELSE hs.base
   IN [m EXCEPT !.hs[e.h] = [hs EXCEPT !.base = base, !.armed = 1, !.due = base + m.D,
-                                      !.fsig = m.lastsig, !.fie = ie,
-                                      !.until = Max2(@, e.t + m.D)],
+                                      !.fsig = m.lastsig, !.fie = ie, !.clean = FALSE],
                !.nfail = @ + 1]
 
 \* ------------------------------------------------------------ API results
